@@ -1,6 +1,8 @@
 package props
 
 import (
+	"compress/gzip"
+	"compress/zlib"
 	"bytes"
 	"context"
 	"encoding/base64"
@@ -869,6 +871,44 @@ func c09Resolver(c *core.Ctx, o *so.Oracle, sp *saml.ServiceProvider, corpus [][
 		}
 		c.Observe("resolver_behaviours", b.name)
 	}
+	// what the IdP metadata says about artifact resolution: no endpoint, none for SOAP, unusable locations, several
+	arsShapes := []struct {
+		name string
+		set  func(md *saml.EntityDescriptor)
+	}{
+		{"no-endpoint", func(md *saml.EntityDescriptor) { md.IDPSSODescriptors[0].ArtifactResolutionServices = nil }},
+		{"empty-endpoint-list", func(md *saml.EntityDescriptor) { md.IDPSSODescriptors[0].ArtifactResolutionServices = []saml.Endpoint{} }},
+		{"no-soap-endpoint", func(md *saml.EntityDescriptor) {
+			md.IDPSSODescriptors[0].ArtifactResolutionServices = []saml.Endpoint{{Binding: saml.HTTPPostBinding, Location: so.IDPArt}}
+		}},
+		{"no-idp-descriptor", func(md *saml.EntityDescriptor) { md.IDPSSODescriptors = nil }},
+		{"empty-location", func(md *saml.EntityDescriptor) {
+			md.IDPSSODescriptors[0].ArtifactResolutionServices = []saml.Endpoint{{Binding: saml.SOAPBinding, Location: ""}}
+		}},
+		{"unparseable-location", func(md *saml.EntityDescriptor) {
+			md.IDPSSODescriptors[0].ArtifactResolutionServices = []saml.Endpoint{{Binding: saml.SOAPBinding, Location: "://%zz"}}
+		}},
+		{"two-soap-endpoints", func(md *saml.EntityDescriptor) {
+			md.IDPSSODescriptors[0].ArtifactResolutionServices = []saml.Endpoint{{Binding: saml.SOAPBinding, Location: so.IDPArt}, {Binding: saml.SOAPBinding, Location: so.IDPArt + "2"}}
+		}},
+	}
+	for _, sh := range arsShapes {
+		sp2 := so.NewSP("meta-one-signing", fx.K("sp_rsa2048"))
+		sh.set(sp2.IDPMetadata)
+		for _, bn := range []string{"good", "connection-error"} {
+			var a *saml.Assertion
+			var err error
+			desc := "artifact-resolution-metadata " + sh.name + " resolver " + bn
+			f := func(id string, _ *http.Request, _ []byte) (*http.Response, error) { return so.OK200(good(id)) }
+			if bn != "good" {
+				f = func(string, *http.Request, []byte) (*http.Response, error) { return nil, errors.New("connection refused") }
+			}
+			if c09Call(c, "ParseResponse-SAMLart", desc, nil, func() { a, err = so.DeliverArtifactHTTP(sp2, []string{"req-1"}, cur, f) }) {
+				c09Contract(c, "ParseResponse-SAMLart", desc, nil, a, err)
+				c.Observe("artifact_resolution_metadata_shapes", sh.name)
+			}
+		}
+	}
 }
 
 // ---- logout responses ----
@@ -986,6 +1026,45 @@ func c09Logout(c *core.Ctx, o *so.Oracle, mine func() bool) {
 			c.Violation("C09/inflate-limit/logout-redirect", fmt.Sprintf("input inflating to %d bytes (>10MB) was not refused by the inflate limit: %v / %v", size, err, errPrivate(err)), nil)
 		}
 	}
+	// the same bombs inside the containers other toolkits put around DEFLATE (RFC 1950 zlib, RFC 1952 gzip): whether
+	// or not the container is understood, nothing beyond the limit may be inflated
+	for name, bomb := range c09FramedBombs(c) {
+		if !mine() {
+			continue
+		}
+		s := base64.StdEncoding.EncodeToString(bomb)
+		var err error
+		a0 := core.HeapAllocs()
+		ok := c09Call(c, "ValidateLogoutResponseRedirect", "inflate-bomb in "+name, bomb, func() { err = sp.ValidateLogoutResponseRedirect(s) })
+		alloc := core.HeapAllocs() - a0
+		if ok && err == nil {
+			c.Violation("C09/bomb-accepted/logout", "bomb in "+name+" reported valid", nil)
+		}
+		if ok && alloc > c09FramedBombAlloc {
+			c.Violation("C09/inflate-limit/logout-redirect/framed", fmt.Sprintf("%s: %d MiB allocated for %d input bytes: inflated beyond the 10 MB limit", name, alloc>>20, len(bomb)), nil)
+		}
+	}
+}
+
+// c09FramedBombAlloc: reading at most 10 MB through a growing buffer allocates a few tens of MiB in total.
+const c09FramedBombAlloc = 192 << 20
+
+func c09FramedBombs(c *core.Ctx) map[string][]byte {
+	size := 100 << 20
+	out := map[string][]byte{}
+	var zb, gb bytes.Buffer
+	zw := zlib.NewWriter(&zb)
+	gw := gzip.NewWriter(&gb)
+	chunk := make([]byte, 1<<20)
+	for i := 0; i < size>>20; i++ {
+		_, _ = zw.Write(chunk)
+		_, _ = gw.Write(chunk)
+	}
+	_ = zw.Close()
+	_ = gw.Close()
+	out[fmt.Sprintf("zlib container (%d MiB of zeros)", size>>20)] = zb.Bytes()
+	out[fmt.Sprintf("gzip container (%d MiB of zeros)", size>>20)] = gb.Bytes()
+	return out
 }
 
 func errPrivate(err error) string {
@@ -1151,6 +1230,24 @@ func c09IdP(c *core.Ctx, o *so.Oracle, mine func() bool) {
 		}
 		if ok && size < 10<<20 && err != nil {
 			c.Count("bomb_below_limit_refused(observation)")
+		}
+	}
+	for name, bomb := range c09FramedBombs(c) {
+		if !mine() {
+			continue
+		}
+		r := httptest.NewRequest("GET", so.IDPSSO+"?SAMLRequest="+url.QueryEscape(base64.StdEncoding.EncodeToString(bomb)), nil)
+		var req *saml.IdpAuthnRequest
+		var err error
+		a0 := core.HeapAllocs()
+		ok := c09Call(c, "NewIdpAuthnRequest", "inflate-bomb in "+name, bomb, func() { req, err = saml.NewIdpAuthnRequest(w.IDP, r) })
+		alloc := core.HeapAllocs() - a0
+		if ok && (alloc > c09FramedBombAlloc || err == nil && req != nil && len(req.RequestBuffer) > 10<<20) {
+			got := 0
+			if req != nil {
+				got = len(req.RequestBuffer)
+			}
+			c.Violation("C09/inflate-limit/idp-get/framed", fmt.Sprintf("%s: %d MiB allocated, buffer=%d bytes, err=%v: inflated beyond the 10 MB limit", name, alloc>>20, got, err), nil)
 		}
 	}
 
